@@ -124,6 +124,48 @@ fn mutate(rng: &mut Rng, text: &str) -> String {
     parts.join(" ")
 }
 
+/// a random sentence of the grammar as a sequence of ALPHABET indices, using at most `budget` tokens
+fn sentence(rng: &mut Rng, budget: usize, out: &mut Vec<usize>) {
+    // indices: a0 b1 7=2 {r}3 &4 |5 -6 ^7 nor8 nand9 =>10 <=11 <=>12 if13 then14 else15 exists16 forall17
+    //          =18 >=19 >20 <21 (22 )23 [24 ]25 ,26 false27 true28 lfp29 gfp30 #31
+    fn list(rng: &mut Rng, budget: usize, out: &mut Vec<usize>) {
+        // `[` items `]`, optional trailing comma; uses at most `budget` tokens (>= 2)
+        out.push(24);
+        let mut left = budget - 2;
+        let mut first = true;
+        while left >= 2 && rng.chance(2, 3) {
+            if !first { out.push(26); left -= 1; }
+            let b = 1 + rng.below(left.min(3) as u64) as usize;
+            let before = out.len();
+            sentence(rng, b, out);
+            left -= out.len() - before;
+            first = false;
+            if left < 2 { break; }
+        }
+        if !first && left >= 1 && rng.chance(1, 4) { out.push(26); }
+        out.push(25);
+    }
+    let simple_budget = if budget >= 3 && rng.chance(1, 3) { 1 + rng.below((budget - 2) as u64) as usize } else { budget };
+    let before = out.len();
+    // the simple term
+    let choice = rng.below(12);
+    match choice {
+        0 | 1 if simple_budget >= 3 => { out.push(22); sentence(rng, simple_budget - 2, out); out.push(23); }
+        2 if simple_budget >= 2 => { out.push(6); sentence(rng, 1, out); }
+        3 | 4 if simple_budget >= 4 => { list(rng, simple_budget - 2, out); out.push(18 + rng.below(4) as usize); out.push(2); }
+        5 if simple_budget >= 5 => { let lb = 2 + rng.below((simple_budget - 4) as u64) as usize; list(rng, lb, out); out.push(*rng.pick(&[18usize, 19, 20, 21, 11])); let used = out.len() - before; list(rng, (simple_budget - used).max(2), out); }
+        6 if budget >= 4 => { out.push(16 + rng.below(2) as usize); out.push(rng.below(2) as usize); if budget >= 6 && rng.chance(1, 2) { out.push(26); out.push(rng.below(2) as usize); } out.push(31); let used = out.len() - before; sentence(rng, (budget - used).max(1), out); return; }
+        7 if budget >= 4 => { out.push(29 + rng.below(2) as usize); out.push(rng.below(2) as usize); out.push(31); sentence(rng, budget - 3, out); return; }
+        8 if budget >= 6 => { out.push(13); let cb = 1 + rng.below(((budget - 5).min(2)) as u64) as usize; sentence(rng, cb, out); out.push(14); sentence(rng, 1, out); out.push(15); let used = out.len() - before; sentence(rng, (budget - used).max(1), out); return; }
+        _ => out.push(*rng.pick(&[0usize, 1, 0, 1, 3, 27, 28])),
+    }
+    let used = out.len() - before;
+    if budget >= used + 2 && rng.chance(2, 3) {
+        out.push(*rng.pick(&[4usize, 5, 7, 8, 9, 10, 11, 12]));
+        sentence(rng, budget - used - 1, out);
+    }
+}
+
 pub fn c08(out: &mut dyn Write, tier: &str, rng: &mut Rng, st: &mut Stats) {
     // pin: the classes the regex crate gives the 128 ASCII characters
     let ascii: String = (0u8..128).map(|b| class_of(b as char)).collect();
@@ -157,6 +199,29 @@ pub fn c08(out: &mut dyn Write, tier: &str, rng: &mut Rng, st: &mut Stats) {
         let seq: Vec<usize> = (0..len).map(|_| rng.below(32) as usize).collect();
         writeln!(out, "{}", seq_line(&seq)).unwrap();
         st.hit("random.seq");
+    }
+    // short sentences of the grammar (within the brute-force oracle's reach) and every kind of single-token
+    // edit of them: a deleted comma / `then` / `#` / bracket, a doubled or swapped token, a foreign token
+    let ne = if tier == "thorough" { 250000 } else { 12000 };
+    for _ in 0..ne {
+        let mut seq: Vec<usize> = Vec::new();
+        let budget = 1 + rng.below(8) as usize;
+        sentence(rng, budget, &mut seq);
+        if seq.len() > 8 { continue; }
+        writeln!(out, "{}", seq_line(&seq)).unwrap();
+        st.hit("short.sentence");
+        let mut m = seq.clone();
+        let i = rng.below(m.len() as u64) as usize;
+        match rng.below(5) {
+            0 | 1 => { m.remove(i); }
+            2 => { let t = m[i]; m.insert(i, t); }
+            3 => { if i + 1 < m.len() { m.swap(i, i + 1); } else { m[i] = rng.below(32) as usize; } }
+            _ => { m[i] = rng.below(32) as usize; }
+        }
+        if m.len() <= 8 {
+            writeln!(out, "{}", seq_line(&m)).unwrap();
+            st.hit("short.edited");
+        }
     }
     // generated sentences with random spellings, whitespace, comments and stray characters
     let m = if tier == "thorough" { 100000 } else { 5000 };
